@@ -25,13 +25,15 @@ SPEC = {
     "harness": "c19",
     "regen": regen,
     "theorems": ["C19_add_exact", "C19_sub_exact", "C19_mul_exact", "C19_div_exact", "C19_shl_exact",
-                 "C19_mulU64_exact", "C19_mulI64_exact", "C19_mulDiv64_exact", "C19_all_translated", "C19_exact_spec"],
+                 "C19_mulU64_exact", "C19_mulI64_exact", "C19_mulDiv64_exact", "C19_all_translated", "C19_exact_spec",
+                 "C19_error_identity", "C19_sentinels_distinct", "C19_ierrors_wrappers", "C19_error_sites_cover"],
     "trusted_base": ["translator harness/tools/translate-safemath (go/ast -> Lean, ~450 lines), cross-checked on every run by executing the generated definitions against the real functions",
                      "Go integer semantics Hive/Base/GoInt.lean (wrap-around, truncated division, shifts, &, bits.Mul64/Div64), validated against the raw Go operators exhaustively for 8-bit types and by samples for wider types",
                      "Go toolchain, compiled Lean driver"],
     "modelled": ["Go operators + - * / << >> & and conversions as Int arithmetic with two's-complement wrap (validated differentially)",
                  "bits.Mul64 / bits.Div64 specified as 128-bit arithmetic", "error values mapped to overflow / divzero by the sentinel they wrap"],
-    "assumptions": ["the shift count parameter is a uint8 (0..255); the theorem covers every natural count"],
+    "assumptions": ["the shift count parameter is a uint8 (0..255); the theorem covers every natural count",
+                    "error identity: errors.Is is modelled by the set of sentinels reachable through %w / Join (Hive/Model/SafeMathErr.lean); the message arguments of the ierrors wrappers are integers, never errors; default build tags (ierrors_no_stacktrace.go)"],
     "manifest": {
         "text": "Regenerated model: safe_math.go is translated to Lean on every run and the theorems are re-proved against it. For every integer type of positive width and either signedness (all eight Go types), every in-range operand pair and every shift count: SafeAdd/Sub/Mul/Div/LeftShift return exactly the mathematical result when representable and the overflow (or division-by-zero) error otherwise (C19_add/sub/mul/div/shl_exact); likewise SafeMulUint64, SafeMulInt64 and Safe64MulDiv (which never reaches a panicking bits.Div64). The tie additionally runs all 65 536 operand pairs of both 8-bit types, all 256 shift counts and boundary-biased 16/32/64-bit samples through the real functions, the generated definitions and a math/big oracle.",
         "note": "Trusted: Lean kernel; the go/ast translator and the Go integer semantics in Hive/Base/GoInt.lean (both cross-checked by the differential run, exhaustive for 8-bit types incl. the raw operators); math/big as oracle.",
